@@ -231,7 +231,7 @@ func C15() *check.Property {
 			"This is a necessary condition of 'strictly one after another'; removing the Wait, moving it, or dropping a context test is reported.",
 		NotDecided:  "the NUMBER of attempts against the configuration (retry counts, ResetOnSuccess, loop conditions) and the order of forwarded values are value-level and not decided; nor is 'released before the next one starts' beyond the awaited subscription being closed when Wait returns.",
 		Assumptions: []string{"Wait returns only once the subscription is closed (C06)"},
-		Floors:      map[string]int{"resubscribe_sites": 7},
+		Floors:      map[string]int{"resubscribe_sites": 7, "attempt_error_callbacks": 6},
 		Controls:    map[string]string{"zz_verif_controls_c15.go": roControl(controlsC15), "zz_verif_controls_c05.go": roControl(controlsC05), "zz_verif_controls_c12.go": roControl(controlsC12), "zz_verif_controls_c15b.go": roControl(controlsReadAfterWait + controlsLoopStops)},
 	}
 }
